@@ -153,6 +153,8 @@ func (e *racEnv) with(vars map[string]gval) *racEnv {
 func (e *racEnv) parseType(s string) (gkind, types.Type) {
 	s = strings.TrimSpace(s)
 	switch s {
+	case "fmtstate":
+		return gRef, nil
 	case "int", "rounder", "form", "error", "string":
 		return gInt, nil
 	case "bool":
@@ -465,6 +467,24 @@ func (e *racEnv) call(x *ECall) gval {
 			}
 		}
 		return gv(fmt.Sprintf("func() %s { if %s { return %s }; return %s }()", goType(p.k, p.elem), c, p.s, q.s), p.k, p.elem)
+	case "wlog", "wlogok", "stflag", "stwidth", "sthaswidth":
+		// the fmt.State itself (interface values are otherwise handled as opaque racIface(x))
+		st := e.eval(a[0]).s
+		if strings.HasPrefix(st, "racIface(") && strings.HasSuffix(st, ")") {
+			st = st[len("racIface(") : len(st)-1]
+		}
+		st = "interface{}(" + st + ").(fmt.State)"
+		switch x.Fn {
+		case "wlog":
+			return gval{s: "racLog(" + st + ", " + fmt.Sprint(e.old) + ")", k: gSlice, elem: types.Universe.Lookup("byte").Type()}
+		case "wlogok":
+			return gval{s: "true", k: gBool}
+		case "stflag":
+			return gval{s: st + ".Flag(int(racI64(" + e.i(a[1]) + ")))", k: gBool}
+		case "stwidth":
+			return gval{s: "func() *big.Int { w, _ := " + st + ".Width(); return big.NewInt(int64(w)) }()", k: gInt}
+		}
+		return gval{s: "func() bool { _, ok := " + st + ".Width(); return ok }()", k: gBool}
 	case "beval":
 		return gval{s: "new(big.Int).SetBytes(" + e.eval(a[0]).s + ")", k: gInt, elem: nil}
 	case "bytes":
